@@ -53,6 +53,21 @@ class StmtMixin:
                 raise Unsupported('return outside a function')
             self.rets[-1].append((st, v))
             return None
+        if isinstance(s, ast.Expr) and isinstance(s.value, (ast.Yield, ast.YieldFrom)):
+            if '<yields>' not in st.env:
+                raise Unsupported('yield outside an inlined generator')
+            v = self.ev(s.value.value, st) if s.value.value is not None else None
+            if st.dead:
+                return None
+            if isinstance(s.value, ast.YieldFrom):
+                if isinstance(v, range) and len(v) <= 4096:
+                    v = list(v)
+                if not isinstance(v, list):
+                    raise Unsupported('yield from something that is not a folded sequence: {}'.format(unparse(s)))
+                st.env['<yields>'] = list(st.env['<yields>']) + v
+            else:
+                st.env['<yields>'] = list(st.env['<yields>']) + [v]
+            return st
         if isinstance(s, ast.Expr):
             if isinstance(s.value, ast.Constant):
                 return st
